@@ -27,6 +27,7 @@ import EsbuildModel.Impl.Lower2
 import EsbuildModel.Impl.Fold
 import EsbuildModel.Impl.PrecDriver
 import EsbuildModel.Impl.Decoders
+import EsbuildModel.Impl.CssBox
 
 open EsbuildModel
 
@@ -62,6 +63,7 @@ def dispatch (kernel : String) (args : List String) : String :=
   | "fold" => Fold.driver args
   | "prec" => Prec.driver args
   | "decoders" => Decoders.driver args
+  | "cssbox" => CssBox.driver args
   | _ => "bad-kernel"
 
 partial def loop (hin hout : IO.FS.Stream) : IO Unit := do
